@@ -34,15 +34,6 @@ def _may_throw(ss):
     return _any(ss, lambda s: s["k"] in ("throw", "forof"))
 
 
-def p_catch_catches_finally_throw(case, rec, exp):
-    """try/catch/finally whose finally block can throw (the try body having completed normally is what
-    triggers it); the observation must be exactly what the transcription of goja's algorithm predicts."""
-    if case.get("kind") != "prog" or not _agrees_I(exp):
-        return False
-    return any(s["k"] == "try" and s.get("hc") and s.get("hf") and _may_throw(s.get("c"))
-               for s in _all_stmts(case.get("prog")))
-
-
 def p_nested_return_clobbers(case, rec, exp):
     """return pending across a finally block that itself contains a try whose body returns (and whose
     own finally overrides that return): vm.result, used to park the pending return value, is overwritten."""
@@ -57,17 +48,6 @@ def p_nested_return_clobbers(case, rec, exp):
     return False
 
 
-def p_return_after_stack_overflow(case, rec, exp):
-    """F12: a stack overflow raised inside a for-of body whose iterator has a return method; return() still runs."""
-    if case.get("kind") != "prog" or not _agrees_I(exp):
-        return False
-    if "OUnc PStackOverflow" not in (rec.get("coq") or ""):
-        return False
-    so = lambda s: s["k"] == "unc" and s.get("n", 0) == 1
-    return any(s["k"] == "forof" and s["it"]["ret"] != 3 and _any(s.get("a"), so)
-               for s in _all_stmts(case.get("prog")))
-
-
 def _lists(ss):
     if ss is None:
         return
@@ -77,22 +57,6 @@ def _lists(ss):
             if s.get(part) is not None:
                 for x in _lists(s[part]):
                     yield x
-
-
-def p_dead_branch_corrupts_code(case, rec, exp):
-    """script (completion-value) mode: statements after a direct break/continue are compiled in 'dummy mode';
-    a break/continue among them that targets an outer block is patched into the REAL program at the dummy
-    position (host panic or wrong control flow)."""
-    if case.get("kind") != "prog" or case.get("fn") or _agrees_I(exp):
-        return False   # model I does not contain this corruption: an observation equal to I is something else
-    br = lambda s: s["k"] in ("break", "cont")
-    for l in _lists(case.get("prog")):
-        for i, s in enumerate(l):
-            if br(s):
-                if _any(l[i + 1:], br):
-                    return True
-                break
-    return False
 
 
 def p_finally_nested_branch_value(case, rec, exp):
@@ -148,10 +112,7 @@ def p_nested_branch_skips_last_producing(case, rec, exp):
 
 
 PREDICATES = {
-    "C08.catch_catches_own_finally_throw": p_catch_catches_finally_throw,
     "C08.nested_return_in_finally_clobbers_pending_return": p_nested_return_clobbers,
-    "C08.iterator_return_runs_after_stack_overflow": p_return_after_stack_overflow,
-    "C08.dead_branch_after_branch_corrupts_code": p_dead_branch_corrupts_code,
     "C08.finally_nested_branch_keeps_stale_completion_value": p_finally_nested_branch_value,
     "C08.caught_throw_keeps_stale_completion_value": p_caught_throw_stale_value,
     "C08.nested_branch_skips_last_producing_statement": p_nested_branch_skips_last_producing,
@@ -252,8 +213,7 @@ CFG = {
              "and a finally block, a for-of or a built-in consumer is involved; distinct = by hash of the case"),
     "theorem_names": ["finally_exactly_once", "finally_exactly_once_innermost_first", "finally_overrides",
                       "iterator_closed_once", "completion_value_rules", "uncatchable_runs_nothing_S", "trace_in_syntax",
-                      "finally_throw_not_caught_by_own_catch", "pending_return_value_refuted", "finally_nested_break_value_refuted", "caught_throw_stale_value_refuted", "nested_branch_loses_value_refuted", "uncatchable_runs_nothing_refuted",
-                      "uncatchable_runs_nothing_partial", "interrupt_runs_nothing", "leaveTry_leaveFinally_roundtrip"],
+                      "finally_throw_not_caught_by_own_catch", "pending_return_value_refuted", "finally_nested_break_value_refuted", "caught_throw_stale_value_refuted", "nested_branch_loses_value_refuted", "uncatchable_runs_nothing", "uncatchable_step_runs_nothing", "leaveTry_leaveFinally_roundtrip"],
     "allowed_axioms": [],
     "trusted_base": [
         "Coq 8.16.1 kernel + vm_compute (no native_compute); theorems closed under the global context (no axioms)",
